@@ -22,6 +22,7 @@ import (
 type PktSpec struct {
 	SrcIA, DstIA     addr.IA
 	SrcHost, DstHost netip.Addr
+	DstSVC           bool // destination is the control service (SVC address) instead of DstHost
 	SrcPort, DstPort uint16
 	Path             snet.DataplanePath
 	L4               string // "udp" | "trreq" (SCMP traceroute request) | "echo"
@@ -45,7 +46,11 @@ func Build(s PktSpec) ([]byte, error) {
 	if err := sc.SetSrcAddr(addr.HostIP(s.SrcHost)); err != nil {
 		return nil, err
 	}
-	if err := sc.SetDstAddr(addr.HostIP(s.DstHost)); err != nil {
+	dsth := addr.HostIP(s.DstHost)
+	if s.DstSVC {
+		dsth = addr.HostSVC(addr.SvcCS)
+	}
+	if err := sc.SetDstAddr(dsth); err != nil {
 		return nil, err
 	}
 	if err := s.Path.SetPath(sc); err != nil {
